@@ -76,7 +76,17 @@ impl<'tcx> Cx<'tcx> {
                         }
                         _ => format!("{}", f.as_usize()),
                     };
-                    let _ = write!(s, "{{\"k\":\"field\",\"i\":{},\"name\":{}}}", f.as_usize(), esc(&name));
+                    let owner = match pty.ty.kind() {
+                        ty::Adt(adt, _) if adt.did().is_local() => self.tcx.def_path_str(adt.did()),
+                        _ => String::new(),
+                    };
+                    let _ = write!(
+                        s,
+                        "{{\"k\":\"field\",\"i\":{},\"name\":{},\"adt\":{}}}",
+                        f.as_usize(),
+                        esc(&name),
+                        esc(&owner)
+                    );
                 }
                 PlaceElem::Index(l) => {
                     let _ = write!(s, "{{\"k\":\"index\",\"local\":{}}}", l.as_usize());
